@@ -594,6 +594,8 @@ func C10(c *Ctx) {
 	r.Floor("R10.2", "selection sites behind the changed-value predicate", nPred, 3)
 
 	r.Rule("R10.8", "the cache a later block reads through holds what the database will hold (shared with C13 R13.4): FlushDirtyData hands the committed dirty set to the account cache on every path, every dirty key of an account enters that account's state cache (deleted keys as tombstones), and a reverted account creation leaves no cache entry; otherwise the next block's origin values - and with them the selection of changed keys that is hashed into the state root - differ between a node that reads through the cache and one that reopened its database.")
+	r.Rule("R10.9", "hashed iff written iff journaled: Commit writes an account record and getJournalIfModified journals it exactly when InnerAccountChanged(origin, dirty) holds; getDirtyData, which builds the account's part of the state-root preimage, includes the marshalled record behind the same predicate. A weaker test (dirtyAccount != nil) hashes records that did not change - a balance that went 0 -> 5 -> 0 inside the block, a setter called with the current value - so two blocks that make the same state changes get different roots.")
+	c.c10RecordPredicate()
 	c.cacheFill("R10.8")
 	// R10.4 balances are immutable values
 	r.Rule("R10.4", balanceInPlaceText)
@@ -863,4 +865,31 @@ func (c *Ctx) ledgerRegion(fn *ssa.Function) []regionFn {
 	}
 	walk(fn, nil, 0)
 	return out
+}
+
+// c10RecordPredicate: R10.9.
+func (c *Ctx) c10RecordPredicate() {
+	r := c.R
+	fn := c.fn("R10.9", "internal/ledger.(*SimpleAccount).getDirtyData")
+	if fn == nil {
+		return
+	}
+	isMarshal := func(in ssa.Instruction) bool {
+		call, ok := in.(ssa.CallInstruction)
+		return ok && strings.HasSuffix(core.CalleeName(call), "InnerAccount).Marshal")
+	}
+	changed := core.BoolCallEdges(fn, func(cc *ssa.Call) bool {
+		return strings.HasSuffix(core.CalleeName(cc), "ledger.InnerAccountChanged")
+	})
+	n := len(sites(fn, isMarshal))
+	r.Floor("R10.9", "account records marshalled into the state-root preimage", n, 1)
+	for _, in := range sites(fn, isMarshal) {
+		key := "getDirtyData: the account record enters the preimage only when it changed"
+		if changed.Len() == 0 {
+			r.Bad("R10.9", key, c.P.Pos(in.Pos()), "getDirtyData hashes the dirty account record whenever a dirty copy exists, Commit and the journal only when InnerAccountChanged(origin, dirty): an EVM contract that stores a slot and sends its call value back to the caller (balance 0 -> 5 -> 0) gets another state root than the value-0 call that makes the same changes")
+			continue
+		}
+		rs := core.Reach([]core.Point{core.EntryOf(fn)}, nil, core.CutOf(changed))
+		r.Check(!rs.Has(in), "R10.9", key, c.P.Pos(in.Pos()), "behind InnerAccountChanged(origin, dirty)", "the record can enter the preimage without the change predicate")
+	}
 }
